@@ -47,7 +47,8 @@ def unit_set_link_address(eng, settled, had_where, lazy):
         eng.lazy_mode = "lazy" if lazy else "eager"
         eng.I = {}
         comp = compiler_obj(eng)
-        prev = mk_token(eng, "Instruction") if had_where else None
+        # the earlier '.link' statement: another statement - possibly spelled exactly like this one (tokens compare structurally)
+        prev = (insn_token(eng, ".link") if had_where == "same-text" else insn_token(eng, ".link", [value_token(eng, 7, "other")])) if had_where else None
         lb, p, sig = link_base(eng, settled, prev)
         dyn, v, isint = dyn_input(eng, "v")
         insn = insn_token(eng, ".link")
@@ -138,7 +139,10 @@ def unit_link_files(eng, nfiles, kinds, settle_in):
             eng.prove("file%d-starts-where-the-previous-ends" % i, view(eng, c[1]) == want_base + off)
             off = off + slen(finals[i])
         eng.prove("image-is-the-files'-bytes-in-order", zbytes(code) == (finals[0] if len(finals) == 1 else z3.Concat(*finals)))
-    return verify(eng, name, run, post, func="compiler.Compiler.compile_and_link_files")
+    r = verify(eng, name, run, post, func="compiler.Compiler.compile_and_link_files")
+    for o_ in r["obligations"]:
+        o_["cfg"] = dict(kind="linkfiles")
+    return r
 
 
 def unit_include(eng, settles, kind):
